@@ -164,6 +164,6 @@ fn residual_missing_scan_on_out_of_order_block() {
 //     (A) by_cat bucket key 1: doc_count 3, s.value 111.0   (expected 1101.0 = 1 + 1000 + 100; 111 = vals of docs 0,1,2)
 //     (B) h bucket key 0.0:   doc_count 3, s.value 111.0   (expected 101 or 102; 111 = vals of docs 0,1,2, doc 1 belongs to bucket 50)
 //
-// Recorded run on the REPAIRED tree (2026-09-26, scratch copy of /repo after the fix commit, debug build):
+// Recorded run on the tree with ONLY THE FIRST repair (2026-09-26, scratch copy of /repo after the first fix commit, debug build):
 //   (A) ok (bucket 1 sum 1101.0)   (B) ok (bucket 0 sum 102.0)
 //   (C) FAILED: by_cat bucket key 1: doc_count 3, s.value 40.0   (expected 35.0 = 10 + 20 + 5; doc 2 counted with its value 20 AND the missing value 5)
